@@ -191,10 +191,9 @@ impl<F: Field> MultilinearExtension<F> for SparseMultilinearExtension<F> {
 
     fn to_evaluations(&self) -> Vec<F> {
         let mut evaluations: Vec<_> = (0..1 << self.num_vars).map(|_| F::zero()).collect();
-        self.evaluations
-            .iter()
-            .map(|(&i, &v)| evaluations[i] = v)
-            .next_back();
+        for (&i, &v) in &self.evaluations {
+            evaluations[i] = v;
+        }
         evaluations
     }
 }
